@@ -19,11 +19,25 @@ def main() -> int:
     a = ap.parse_args()
     from engine import tlc
     try:
+        if a.prop == "C10":
+            from engine import cl_check, rx_check
+            if a.replay:
+                import json
+                kind = json.load(open(a.replay)).get("kind")
+                return (rx_check if kind == "rx" else cl_check).replay("C10", a.replay)
+            rc1 = rx_check.run_check("C10", a.tier, write=False)
+            rc2 = cl_check.run_check("C10", a.tier, rx_part=dict(rx_check.LAST))
+            return max(rc1, rc2)
         if a.prop in RX_PROPS:
             from engine import rx_check
             if a.replay:
                 return rx_check.replay(a.prop, a.replay)
             return rx_check.run_check(a.prop, a.tier)
+        if a.prop in ("C09", "C11"):
+            from engine import cl_check
+            if a.replay:
+                return cl_check.replay(a.prop, a.replay)
+            return cl_check.run_check(a.prop, a.tier)
         print(f"unknown property {a.prop}", file=sys.stderr)
         return 2
     except tlc.TLCError as exc:
